@@ -205,6 +205,12 @@ fn tweak_for(prop: &str) -> impl Fn(&mut Swarm) {
             sw.steps = sw.steps.max(20);
         }
         "C16" => {
+            if sw.max_rows_stmt >= 5 {
+                // one run in 3: a tree of height >= 3 under key updates
+                sw.big_rows = *[28usize, 45, 80, 140].get(((sw.null_pct as usize) + sw.steps) % 4).unwrap_or(&45);
+                sw.steps = 220;
+                sw.fault_pct = 0;
+            }
             sw.extreme_ints = false;
             sw.with_indexes = true;
             sw.w_index = 4;
